@@ -162,7 +162,16 @@ pub fn main(args: &Args, ext: &Externs) -> i32 {
         let (k, s) = (d["case"]["field_kind"].as_str().unwrap_or("").to_owned(), d["case"]["shape"].as_str().unwrap_or("").to_owned());
         cases.retain(|c| ks[c.0].name == k && format!("{:?}", c.1) == s);
     }
-    let fam_defs = if args.tier == vcommon::Tier::Thorough { defgen::family("quick") } else { defgen::zoo() };
+    let mut fam_defs = if args.tier == vcommon::Tier::Thorough { defgen::family("quick") } else { defgen::zoo() };
+    if args.tier != vcommon::Tier::Thorough {
+        // wide records: twelve fields (two-digit positions), and thirteen in one variant
+        fam_defs.extend(defgen::wide().into_iter().take(2));
+    }
+    {
+        let t = |n: &str| defgen::type_index(n);
+        let add: Vec<(usize, bool)> = ["Pod4", "Own8", "Pod2", "Own3", "Pod1", "Pod8", "OwnBox", "Pod4", "Pod2", "Own1", "Pod4", "Pod1", "Own12"].iter().enumerate().map(|(i, n)| (t(n), i % 5 == 0)).collect();
+        fam_defs.push(defgen::DefSpec { name: "thirteen".to_owned(), steps: vec![defgen::DStep { remove: vec![], ghost: false, ghost_late: false, add, strat: 0 }], reuse_names: false });
+    }
     let mut fam_cases: Vec<(usize, usize, usize)> = vec![];
     for (d, spec) in fam_defs.iter().enumerate() {
         for slot in 0..spec.slots() {
